@@ -235,6 +235,13 @@ struct OneShotSim : Sim {
                 }
                 r.cov.state(mix64(0xe0 + k * 2 + kf, api));
                 r.cov.hit("oneshot_keyexp_calls");
+                if (((o.a >> 9) & 7) == 0) {
+                        static void *ver = libsym("isal_crypto_get_version", false), *vers = libsym("isal_crypto_get_version_str", false);
+                        if (ver)
+                                e.obs(0xa03, e.call("isal_crypto_get_version", ver, {}));
+                        if (vers)
+                                e.call("isal_crypto_get_version_str", vers, {});
+                }
         }
 
         void op_cbc(const Op &o, Env &e, RunResult &r)
@@ -252,9 +259,24 @@ struct OneShotSim : Sim {
                 g.fill(key, KB[k]);
                 uint8_t *enc = e.mem.alloc(16 * 15, 16, START_FLUSH, &e.hidden, "enc schedule", R_OBJECT);
                 uint8_t *dec = e.mem.alloc(16 * 15, 16, START_FLUSH, &e.hidden, "dec schedule", R_OBJECT);
-                expand(e, k, (int) (o.c & 1), key, enc, dec);
-                e.mem.snapshot(enc);
-                e.mem.snapshot(dec);
+                static void *precomp = libsym("aes_cbc_precomp", false);
+                if (precomp && ((o.c >> 4) & 3) == 0) {
+                        // deprecated helper: fills a struct isal_cbc_key_data {enc_keys[240], dec_keys[240]}
+                        uint8_t *kd = e.mem.alloc(sizeof(struct isal_cbc_key_data), 16, START_FLUSH, &e.hidden, "cbc key data", R_OBJECT);
+                        e.secrets.clear();
+                        e.secrets.add_range(key, KB[k] >= 32 ? 32 : 16, "the raw key");
+                        e.scan_secrets = true;
+                        uint64_t rc = e.call("aes_cbc_precomp", precomp, { U(key), (uint64_t) KB[k], U(kd) });
+                        e.obs(0xa14, (uint32_t) rc);
+                        e.check_buf(kd, "aes_cbc_precomp");
+                        enc = kd;
+                        dec = kd + ISAL_CBC_MAX_KEYS_SIZE;
+                        e.mem.snapshot(kd);
+                } else {
+                        expand(e, k, (int) (o.c & 1), key, enc, dec);
+                        e.mem.snapshot(enc);
+                        e.mem.snapshot(dec);
+                }
                 uint8_t *iv = e.mem.alloc(16, 16, (Place) (o.d % 3), nullptr, "cbc iv", R_INPUT, 16 * (size_t) ((o.d >> 2) % 4));
                 g.fill(iv, 16);
                 e.mem.snapshot(iv);
